@@ -68,6 +68,17 @@ func c20scenario(k int, explore bool) string {
 		opt.NewCommand("bundle", "")
 		opt.NewCommand("bake", "")
 		vSetenv("COMP_LINE", "prog b")
+	case 8: // completion of a fully typed command name that prefixes its siblings
+		opt.NewCommand("log", "")
+		opt.NewCommand("logs", "")
+		opt.NewCommand("login", "")
+		opt.NewCommand("show", "")
+		vSetenv("COMP_LINE", "prog log")
+	case 9: // ambiguous prefix with four candidates (names and aliases)
+		opt.Bool("version", false, opt.Alias("vers"))
+		opt.Bool("verbose", false)
+		opt.String("verify", "")
+		args = []string{"--ver"}
 	}
 	if explore {
 		vMapOrder("explore")
@@ -87,7 +98,7 @@ func c20scenario(k int, explore bool) string {
 }
 
 func VerifC20_MapOrder() {
-	k := vInt("scenario", 0, 7)
+	k := vInt("scenario", 0, 9)
 	vPhase("run")
 	first := c20scenario(k, false)
 	vObserve("first", first)
